@@ -98,13 +98,17 @@ func genG20(rng *rand.Rand) *g20Gram {
 	default:
 		g.rules = append(g.rules, g20Rule{lhs: n0, elems: []g20Elem{{sym: term()}, {sym: n0 + 1, rep: 3}, {sym: term(), rep: rng.Intn(2)}}})
 	}
+	forceNullable := map[int]bool{} // nonterminals used as a tail that can be empty
 	for nt := 1; nt < g.nnonterms; nt++ {
 		lhs := g.nterms + nt
 		nrules := 1 + rng.Intn(3)
+		if forceNullable[lhs] && nrules == 1 {
+			nrules = 2
+		}
 		used := map[int]bool{}
 		for r := 0; r < nrules; r++ {
 			var el []g20Elem
-			if nt >= 2 && r == nrules-1 && rng.Intn(2) == 0 {
+			if nt >= 2 && r == nrules-1 && (rng.Intn(2) == 0 || forceNullable[lhs]) {
 				g.rules = append(g.rules, g20Rule{lhs: lhs}) // a nullable nonterminal
 				continue
 			}
@@ -143,10 +147,15 @@ func genG20(rng *rand.Rand) *g20Gram {
 			// a tail that can be empty (the delicate shape for fixTrailingWS)
 			if len(el) > 0 && rng.Intn(5) < 2 {
 				var e g20Elem
+				// ('x'? and N? are expanded into two rules by the compiler: only lists and nullable nonterminals leave
+				// an empty symbol on the stack)
 				if nt+1 < g.nnonterms && rng.Intn(2) == 0 {
-					e = g20Elem{sym: g.nterms + nt + 1 + rng.Intn(g.nnonterms-nt-1), rep: []int{1, 3, 0}[rng.Intn(3)]}
+					e = g20Elem{sym: g.nterms + nt + 1 + rng.Intn(g.nnonterms-nt-1), rep: []int{1, 3, 0, 0}[rng.Intn(4)]}
+					if e.rep == 0 {
+						forceNullable[e.sym] = true
+					}
 				} else {
-					e = g20Elem{sym: term(), rep: []int{1, 1, 3}[rng.Intn(3)]}
+					e = g20Elem{sym: term(), rep: []int{1, 3, 3, 3}[rng.Intn(4)]}
 				}
 				el = append(el, e)
 			}
@@ -352,9 +361,13 @@ func (g *g20Gram) ruleText(r g20Rule) string {
 	return sb.String()
 }
 
-func (g *g20Gram) toTM(name string) string {
+func (g *g20Gram) toTM(name string, withAST bool) string {
 	var sb strings.Builder
-	fmt.Fprintf(&sb, "language %s(go);\n\nlang = %q\npackage = \"verifgen/%s\"\neventBased = true\n", name, name, name)
+	if withAST {
+		fmt.Fprintf(&sb, "language %s(go);\n\nlang = %q\npackage = \"verifgen/%s/base\"\neventBased = true\neventFields = true\neventAST = true\n", name, name, name)
+	} else {
+		fmt.Fprintf(&sb, "language %s(go);\n\nlang = %q\npackage = \"verifgen/%s\"\neventBased = true\n", name, name, name)
+	}
 	if g.fixws {
 		sb.WriteString("fixWhitespace = true\n")
 	}
@@ -425,6 +438,9 @@ func (g *g20Gram) derive(rng *rand.Rand, sym int, budget *int, out []int) []int 
 	}
 	*budget--
 	ri := cands[rng.Intn(len(cands))]
+	if sym == g.nterms && *budget > 0 && rng.Intn(4) != 0 {
+		ri = cands[0] // the list keeps growing while the budget lasts
+	}
 	cheap := *budget < 0
 	if cheap {
 		best := 1 << 30
@@ -459,6 +475,9 @@ func (g *g20Gram) derive(rng *rand.Rand, sym int, budget *int, out []int) []int 
 			reps = 1 + rng.Intn(3)
 		case 3, 5:
 			reps = rng.Intn(3)
+		}
+		if sym == g.nterms && e.rep >= 2 {
+			reps += rng.Intn(4) // the top-level list
 		}
 		if cheap {
 			if g.mandatory(e) {
@@ -504,59 +523,138 @@ func g20Trivia(rng *rand.Rand, broken bool) string {
 }
 
 // g20Driver: VerifRun(mode, input); mode = "<stop after this many errors, 0 = never>"; the answer lists the listener
-// callbacks in report order.
-func g20Driver(p *genPkg) string {
+// callbacks in report order. With a generated AST package (eventAST) the stream is also driven into the generated
+// builder.addNode and the resulting stack of trees is appended.
+func g20Driver(p *genPkg) string { return g20DriverFor(p, false) }
+
+func g20DriverAST(p *genPkg) string { return g20DriverFor(p, true) }
+
+func g20DriverFor(p *genPkg, withAST bool) string {
 	var sb strings.Builder
 	rec := p.g.Parser.IsRecovering
 	stream := p.g.Options.TokenStream
-	fmt.Fprintf(&sb, "package %s\n\nimport (\n\t\"fmt\"\n\t\"strings\"\n)\n\n", p.name)
-	sb.WriteString(`func VerifRun(mode string, input []byte) string {
+	q := ""
+	fmt.Fprintf(&sb, "package %s\n\nimport (\n\t\"fmt\"\n\t\"strings\"\n", p.name)
+	if withAST {
+		q = "base."
+		fmt.Fprintf(&sb, "\n\t\"verifgen/%s/base\"\n\t\"verifgen/%s/base/ast\"\n", p.name, p.name)
+	}
+	sb.WriteString(")\n\n")
+	sb.WriteString(strings.ReplaceAll(`func VerifRun(mode string, input []byte) string {
 	var stopAfter int
 	fmt.Sscanf(mode, "%d", &stopAfter)
 	var ev strings.Builder
+	var evs [][3]int
 	nerr := 0
 	_ = nerr
-	listener := func(t NodeType, offset, endoffset int) { fmt.Fprintf(&ev, " (%d %d %d)", int(t), offset, endoffset) }
-	var p Parser
-`)
+	listener := func(t Q.NodeType, offset, endoffset int) {
+		fmt.Fprintf(&ev, " (%d %d %d)", int(t), offset, endoffset)
+		evs = append(evs, [3]int{int(t), offset, endoffset})
+	}
+	var p Q.Parser
+`, "Q.", q))
 	if rec {
-		sb.WriteString("\tp.Init(func(se SyntaxError) bool {\n\t\tnerr++\n\t\treturn stopAfter == 0 || nerr < stopAfter\n\t}, listener)\n")
+		fmt.Fprintf(&sb, "\tp.Init(func(se %sSyntaxError) bool {\n\t\tnerr++\n\t\treturn stopAfter == 0 || nerr < stopAfter\n\t}, listener)\n", q)
 	} else {
 		sb.WriteString("\tp.Init(listener)\n")
 	}
 	if stream {
-		sb.WriteString("\tvar s TokenStream\n\ts.Init(string(input), listener)\n\terr := p.Parse(&s)\n")
+		fmt.Fprintf(&sb, "\tvar s %sTokenStream\n\ts.Init(string(input), listener)\n\terr := p.Parse(&s)\n", q)
 	} else {
-		sb.WriteString("\tvar l Lexer\n\tl.Init(string(input))\n\terr := p.Parse(&l)\n")
+		fmt.Fprintf(&sb, "\tvar l %sLexer\n\tl.Init(string(input))\n\terr := p.Parse(&l)\n", q)
 	}
-	sb.WriteString(`	res := "accept"
-	if _, ok := err.(SyntaxError); ok {
+	sb.WriteString(strings.ReplaceAll(`	res := "accept"
+	if _, ok := err.(Q.SyntaxError); ok {
 		res = "syntax"
 	} else if err != nil {
 		res = "other"
 	}
-	return fmt.Sprintf("(%s (events%s))", res, ev.String())
+	forest := ""
+`, "Q.", q))
+	if withAST {
+		sb.WriteString("\tif len(evs) > 0 && len(evs) < 3000 {\n\t\tforest = \" \" + ast.VerifBuild(string(input), evs)\n\t}\n")
+	}
+	sb.WriteString(`	return fmt.Sprintf("(%s (events%s)%s)", res, ev.String(), forest)
 }
 `)
 	return sb.String()
 }
 
-// parseG20Answer: "(res (events (t o e) ...))" -> status and events
-func parseG20Answer(a string) (string, [][3]int, string) {
+// g20BuildHook: added to the generated ast package; drives the generated builder.addNode and dumps its stack
+// (the same as parsers/tm/ast/verif_hooks.go).
+func g20BuildHook(name string) string {
+	return `package ast
+
+import (
+	"fmt"
+	"strings"
+
+	"verifgen/` + name + `/base"
+)
+
+func VerifBuild(content string, events [][3]int) string {
+	b := newBuilder("", content)
+	for _, e := range events {
+		b.addNode(base.NodeType(e[0]), e[1], e[2])
+	}
+	var sb strings.Builder
+	sb.WriteString("(")
+	for i, n := range b.stack {
+		if i > 0 {
+			sb.WriteString(" ")
+		}
+		verifDump(&sb, n, nil)
+	}
+	sb.WriteString(")")
+	return sb.String()
+}
+
+func verifDump(sb *strings.Builder, n *Node, parent *Node) {
+	fmt.Fprintf(sb, "(%d %d %d", int(n.t), n.offset, n.endoffset)
+	if n.parent != parent {
+		sb.WriteString(" badparent")
+	}
+	for c := n.firstChild; c != nil; c = c.next {
+		sb.WriteString(" ")
+		verifDump(sb, c, n)
+	}
+	sb.WriteString(")")
+}
+`
+}
+
+// parseG20Answer: "(res (events (t o e) ...) forest?)" -> status, events, result, forest of the generated builder
+func parseG20Answer(a string) (string, [][3]int, string, string) {
 	if !strings.HasPrefix(a, "(") {
 		f := strings.Fields(a)
 		if len(f) == 0 {
-			return "noanswer", nil, ""
+			return "noanswer", nil, "", ""
 		}
-		return f[0], nil, "" // panic / timeout / nobuild / noanswer
+		return f[0], nil, "", "" // panic / timeout / nobuild / noanswer
 	}
 	i := strings.Index(a, "(events")
 	if i < 0 {
-		return "garbled", nil, ""
+		return "garbled", nil, "", ""
 	}
 	res := strings.TrimSpace(a[1:i])
+	// the end of the events list
+	depth, end := 0, -1
+	for k := i; k < len(a); k++ {
+		if a[k] == '(' {
+			depth++
+		} else if a[k] == ')' {
+			depth--
+			if depth == 0 {
+				end = k
+				break
+			}
+		}
+	}
+	if end < 0 || !strings.HasSuffix(a, ")") {
+		return "garbled", nil, "", ""
+	}
 	var evs [][3]int
-	rest := a[i+len("(events"):]
+	rest := a[i+len("(events") : end]
 	for {
 		j := strings.Index(rest, "(")
 		if j < 0 {
@@ -564,23 +662,25 @@ func parseG20Answer(a string) (string, [][3]int, string) {
 		}
 		k := strings.Index(rest[j:], ")")
 		if k < 0 {
-			return "garbled", nil, ""
+			return "garbled", nil, "", ""
 		}
 		var e [3]int
 		if _, err := fmt.Sscanf(rest[j:j+k+1], "(%d %d %d)", &e[0], &e[1], &e[2]); err != nil {
-			return "garbled", nil, ""
+			return "garbled", nil, "", ""
 		}
 		evs = append(evs, e)
 		rest = rest[j+k+1:]
 	}
-	return "ok", evs, res
+	forest := strings.TrimSpace(a[end+1 : len(a)-1])
+	return "ok", evs, res, forest
 }
 
 func c20Gen(rng *rand.Rand, n int, args []string) {
-	perGrammar := 30
+	perGrammar := 40
 	var pkgs []*genPkg
 	var grams []*g20Gram
-	tried, conflicts, other := 0, 0, 0
+	tried, conflicts, other, astRejected := 0, 0, 0, 0
+	withAST := map[string]bool{}
 	for len(pkgs) < n && tried < 80*n {
 		tried++
 		g := genG20(rng)
@@ -588,8 +688,25 @@ func c20Gen(rng *rand.Rand, n int, args []string) {
 			continue
 		}
 		name := fmt.Sprintf("w%04d", len(pkgs))
-		p := &genPkg{name: name, tm: g.toTM(name), driver: g20Driver}
+		p := &genPkg{name: name, tm: g.toTM(name, false), driver: g20Driver}
 		c16Compile(p)
+		if p.err == nil && rng.Intn(2) == 0 {
+			// the same grammar with a generated AST package, when the field inference accepts it
+			pa := &genPkg{name: name, tm: g.toTM(name, true), driver: g20DriverAST}
+			c16Compile(pa)
+			if pa.err == nil {
+				files := map[string]string{}
+				for k, v := range pa.files {
+					files["base/"+k] = v
+				}
+				files["base/ast/verif_build.go"] = g20BuildHook(name)
+				pa.files = files
+				p = pa
+				withAST[name] = true
+			} else {
+				astRejected++
+			}
+		}
 		if p.err != nil {
 			if strings.Contains(p.err.Error(), "conflict") {
 				conflicts++
@@ -614,7 +731,7 @@ func c20Gen(rng *rand.Rand, n int, args []string) {
 	for i, p := range pkgs {
 		g := grams[i]
 		for s := 0; s < perGrammar; s++ {
-			budget := rng.Intn(9)
+			budget := 1 + rng.Intn(12)
 			toks := g.derive(rng, g.nterms, &budget, nil)
 			if len(toks) > 60 {
 				toks = toks[:60]
@@ -714,7 +831,7 @@ func c20Gen(rng *rand.Rand, n int, args []string) {
 		if p.err != nil {
 			continue
 		}
-		st, evs, res := parseG20Answer(answers[k])
+		st, evs, res, forest := parseG20Answer(answers[k])
 		sx.Case("c20.genev", sx.List(sx.Str(p.tm), sx.Int(len(s.text)), sx.Str(s.text)), sx.List(st, evStr(evs)))
 		if s.broken {
 			sx.Stat("gen_inputs_broken", 1)
@@ -727,7 +844,11 @@ func c20Gen(rng *rand.Rand, n int, args []string) {
 		if !s.broken && res != "accept" {
 			sx.Stat("gen_sentence_not_accepted", 1)
 		}
-		if st == "ok" && len(evs) > 0 && len(evs) < 3000 && k%2 == 0 {
+		if st == "ok" && forest != "" {
+			// the generated builder.addNode (go_ast_parse.go.tmpl instantiated for this grammar) on the stream
+			sx.Case("c20.build", sx.List(sx.Int(len(s.text)), evStr(evs)), forest)
+			sx.Stat("gen_streams_into_generated_builder", 1)
+		} else if st == "ok" && len(evs) > 0 && len(evs) < 3000 && k%2 == 0 {
 			// builder.addNode (the tm instance of go_ast_parse.go.tmpl) on the stream of a generated parser
 			sx.Case("c20.build", sx.List(sx.Int(len(s.text)), evStr(evs)), tmast.VerifBuild(s.text, evs))
 		}
@@ -735,4 +856,6 @@ func c20Gen(rng *rand.Rand, n int, args []string) {
 	sx.Stat("gen_grammars_tried", tried)
 	sx.Stat("gen_grammars_conflicting", conflicts)
 	sx.Stat("gen_grammars_rejected_otherwise", other)
+	sx.Stat("gen_grammars_with_generated_ast", len(withAST))
+	sx.Stat("gen_ast_variant_rejected", astRejected)
 }
